@@ -22,3 +22,15 @@ def set_r(cfg, value=1):
 def replace_cfg(cfg, marker='new'):
   new = fdl.Config(pool.fc, marker, q=list(cfg.q) + ['replaced'], r=cfg.r)
   return new
+
+
+def with_list(layers=(), tag='l'):
+  return fdl.Config(pool.fc, layers, q=tag)      # keeps the very object it was given
+
+
+def set_layers(cfg, layers):
+  cfg.p = layers
+
+
+def widen(cfg, factor=2):
+  cfg.p[:] = [v * factor for v in cfg.p]          # in-place edit of the stored list
